@@ -502,12 +502,23 @@ fn execute(sc: &Scenario, mode: Mode, path: &std::path::Path, st: &mut St) -> Re
     }
     // a reader blocked although no writer was growing the file
     for (w, last, lasts) in &trace.blocked {
-        if roles[*w] == "reader" && *last == 1 {
-            let someone_in_resize = lasts.iter().enumerate().any(|(i, p)| i != *w && (*p == 13 || *p == 14 || *p == 15));
+        // which lock the reader is about to take after its last point, and who may legitimately hold it:
+        //   begin:before-lock -> map read lock: a worker inside resize (13..15)
+        //   begin:after-lock, drop:start -> free-list / reader-list mutex: a worker paused inside the
+        //       reader-list critical section (begin:after-header-read, 3)
+        //   begin:after-register -> map-handle mutex: a worker that has just remapped (15)
+        let holders: &[u32] = match *last {
+            1 => &[13, 14, 15],
+            2 | 16 => &[3],
+            4 => &[15],
+            _ => continue,
+        };
+        if roles[*w] == "reader" {
+            let someone_in_resize = lasts.iter().enumerate().any(|(i, p)| i != *w && holders.contains(p));
             if !someone_in_resize {
                 viol.push((
                     "reader-blocked-by-open-writer".into(),
-                    format!("reader worker {} blocked while beginning although no writer was extending the file (last points {:?})", w, lasts.iter().map(|p| sched::point_name(*p)).collect::<Vec<_>>()),
+                    format!("reader worker {} blocked after {} although no other worker was inside the short critical section or the file extension that may hold that lock (last points {:?})", w, sched::point_name(*last), lasts.iter().map(|p| sched::point_name(*p)).collect::<Vec<_>>()),
                 ));
             }
         }
